@@ -29,6 +29,29 @@ STEER5 = {
  "C20": "SDK liquidity quotes (slippage and transfer fee), the SDK adaptive-fee manager's skip logic, tick-array facade traversal at array edges / negative indexes, try_get_next_sqrt_price_from_b, exact-out quotes",
 }
 
+STEER6 = {
+ "C01": "how fees credited to positions round (position_manager), many small positions versus one large one, liquidity near the u128 limits or prices near the protocol bounds, the v1 handlers, token amounts near u64::MAX",
+ "C02": "the unfixed-side amount (get_amount_unfixed_delta), the overflow recoveries (amounts that exceed u64 mid-computation), a step with zero liquidity, targets equal to the protocol price bounds, exact-out in token B",
+ "C03": "validation of the price limit (wrong side, out of bounds, equal to the current price), amount 0, swaps that start at a protocol price bound, swap_v2 with Token-2022 mints that carry no transfer fee",
+ "C04": "position-bundle instructions (the bundle token holder is the authority of every bundled position), lock_position, reset_position_range, close_position_with_token_extensions, rewards with index 1 or 2, the Token-2022 position-token branch of the Pinocchio authority check",
+ "C05": "decreasing to zero and tick de-initialisation, two positions sharing both bounds, overflow / underflow guards of liquidity_net and liquidity_gross, the tick write-back done by the swap itself, tick spacing 1 and 32768",
+ "C06": "exact-out fee computation, a step whose amount runs out exactly on a tick, protocol fee rate changed between swaps, the pre/post price and amounts of the v1 Traded event, the two Traded events of a two-hop swap",
+ "C07": "which tick array is used for the lower / upper bound in update_fees_and_rewards and collect, positions whose bounds lie in different tick arrays, the u64 overflow rule of fee_owed, checkpoints on the Pinocchio decrease path, reset_position_range",
+ "C08": "the v1 increase / decrease handlers' bounds, conversion of the unsigned liquidity amount into a signed delta, the price-slippage bounds (min / max sqrt price) of increase_liquidity_by_token_amounts_v2, reposition by token amounts",
+ "C09": "rejection of ticks / prices outside the bounds, a constant of the negative-tick product, the value at tick 0 and +-1, the conversion between the x96 and x64 representation",
+ "C10": "the Anchor fixed array's next-initialized search (a-to-b versus b-to-a asymmetry), validation of the first tick array against the current tick in the v1 swap path, the MIN / MAX tick-array sentinels, a swap whose start tick lies outside the first supplied array",
+ "C11": "reward index 2, the emissions vault check for a Token-2022 reward mint, reward checkpoints when a position is decreased to zero or repositioned, collect_reward_v2, growth rounding when liquidity is huge",
+ "C12": "the division-free usable-tick offset routine, the memory-mapped position's reward slots 1 and 2, lamports moved between position and tick array, LiquidityOverflow / LiquidityUnderflow error cases, decreasing more than the position holds",
+ "C13": "slot offsets for arrays with a negative start index, the Anchor dynamic array's get_tick / update_tick bounds, start-index validity at initialisation, the arrays touching the MIN / MAX tick",
+ "C14": "the major-swap threshold, rounding in the decay (reduction factor) arithmetic, the total-rate cap, exact-out swaps on adaptive pools, changing the static rate of an adaptive pool, zero-liquidity gaps inside the skip range",
+ "C15": "initialize_reward(_v2) and set_reward_emissions accounts, collect_protocol_fees(_v2) vaults and destinations, close_position / lock_position / transfer_locked_position accounts (lock config PDA), validation of transfer-hook remaining accounts",
+ "C16": "the epoch boundary of a scheduled fee change inside swaps, exact-out with a fee on the output mint, reposition with fees on both mints, the fee fields of the LiquidityIncreased / LiquidityDecreased events, amounts where the maximum-fee cap binds",
+ "C17": "exact-out through v1, the default price limits per direction when the caller passes 0, the order in which the two pools' tick arrays are consumed, the intermediate-vault handling of v1, same pool in reversed direction",
+ "C18": "bundle index bounds and bit order, closing a bundled position that is not open, the metadata variant's mint authority, lock types, resetting to the identical range (must fail), one-sided bounds on full-range-only pools",
+ "C19": "the default protocol fee rate at config creation and its setter, fee tiers with tick spacing 0 or above the maximum, the adaptive tier's base fee bound, equal or mis-ordered mints at pool creation, extension data-length handling in the mint admission parser, ConfidentialTransfer-family extensions",
+ "C20": "the decrease-liquidity quote, rounding of try_get_amount_delta_b, transfer-fee helpers (apply / reverse), the negative-tick price path, tick-array start index helpers, slippage on exact-out quotes, quotes that run into the protocol price bounds",
+}
+
 def main():
     tag, outdir = sys.argv[1], sys.argv[2]
     os.makedirs(outdir, exist_ok=True)
@@ -51,7 +74,8 @@ def main():
         text = (f"{pid} — {p['title']}\n\nStatement: {p['statement']}\n\nQuantified over: {p['quantifier']['text']}\n\n"
                 f"Why the existing tests cannot settle it: {p['why_tests_cant']}\n\nWhere it lives: files {', '.join(p['anchors']['files'])}; "
                 f"mechanisms: " + "; ".join(f"{m['name']} ({m['where']})" for m in p['anchors']['mechanism']))
-        steer = f"Preferably look at parts of the behaviour that none of these touched, for instance: {STEER5[pid]}." if tag.startswith("seed5") else ""
+        st = STEER5 if tag.startswith("seed5") else STEER6 if tag.startswith("seed6") else None
+        steer = f"Preferably look at parts of the behaviour that none of these touched, for instance: {st[pid]}." if st else ""
         out = (brief.replace("{dir}", f"/tmp/{tag}_{pid}").replace("{property}", text).replace("{used}", "\n".join(used) or "(none)")
                .replace("{steer}", steer).replace("{id}", pid))
         open(os.path.join(outdir, pid + ".txt"), "w").write(out)
